@@ -52,6 +52,23 @@ func VerifClientRecv(protocol ClientProtocol, conf *TarsClientConf, conn net.Con
 	client.conn.recv(conn, done)
 }
 
+// VerifNewClient creates a client whose receive loop can be run on a sequence of supplied
+// connections (what a client does across reconnects).
+func VerifNewClient(protocol ClientProtocol, conf *TarsClientConf) *TarsClient {
+	return NewTarsClient("fake:0", protocol, conf)
+}
+
+// VerifRecvOn installs conn as the client's current connection and runs the receive loop on
+// it until it ends.
+func (tc *TarsClient) VerifRecvOn(conn net.Conn) {
+	done := make(chan bool, 1)
+	tc.conn.connLock.Lock()
+	tc.conn.conn = conn
+	tc.conn.isClosed = false
+	tc.conn.connLock.Unlock()
+	tc.conn.recv(conn, done)
+}
+
 // VerifClientClosed reports whether the client currently regards its connection as closed.
 func (tc *TarsClient) VerifClientClosed() bool {
 	tc.conn.connLock.Lock()
